@@ -62,4 +62,47 @@ theorem C05_order_global (s : Fw σ) :
     processEvent ρ .normalRecv s =
       (List.range s.rt.length).foldl (fun s mi => (transition ρ FUEL mi .normalRecv s).1) s := rfl
 
+/-- Nothing is carried from one call to the next in the action slots: whatever a previous call
+    left there (any list of the same length), the next call computes the same framework. So the
+    actions of a call depend on the earlier history only through the machines' runtime and the
+    framework-wide accounting. -/
+theorem C05_stale_slots_irrelevant (es : List TEvent) (t : Int) (s : Fw σ)
+    (a' : List (Option TAction)) (h : a'.length = s.actions.length) :
+    triggerEvents ρ es t { s with actions := a' } = triggerEvents ρ es t s := by
+  have : Fw.callStart { s with actions := a' } t = s.callStart t := by
+    simp only [Fw.callStart, List.map_const', h]
+  simp only [triggerEvents, this]
+
+/-- The once-per-call CounterZero guard flags do not survive the call either: whatever value they
+    had when the previous call returned, the next call computes the same framework. -/
+theorem C05_stale_flags_irrelevant (es : List TEvent) (t : Int) (s : Fw σ) (rt' : List Runtime)
+    (h : rt'.map (fun r => { r with zeroedA := false, zeroedB := false }) =
+         s.rt.map (fun r => { r with zeroedA := false, zeroedB := false })) :
+    triggerEvents ρ es t { s with rt := rt' } = triggerEvents ρ es t s := by
+  have : Fw.callStart { s with rt := rt' } t = s.callStart t := by
+    simp only [Fw.callStart, h]
+  simp only [triggerEvents, this]
+
+/-- The framework's previous clock value is not an input of a call: only the time passed to the
+    call is (no wall clock, no remembered "now"). -/
+theorem C05_previous_now_irrelevant (es : List TEvent) (t t' : Int) (s : Fw σ) :
+    triggerEvents ρ es t { s with g := { s.g with now := t' } } = triggerEvents ρ es t s := by
+  simp only [triggerEvents, Fw.callStart]
+
+/-- One list of actions per call, in call order. -/
+theorem C05_one_result_per_call (s : Fw σ) (h : List Call) :
+    (runActions ρ s h).length = h.length := by
+  induction h generalizing s with
+  | nil => simp [runActions, runStates]
+  | cons c h ih =>
+    have := ih (triggerEvents ρ c.1 c.2 s)
+    simp [runActions, runStates] at this ⊢
+    exact this
+
+/-- The actions of the first `n` calls do not depend on what is reported later: a prefix of the
+    history returns a prefix of the results (the framework cannot look ahead). -/
+theorem C05_prefix (s : Fw σ) (h₁ h₂ : List Call) :
+    (runActions ρ s (h₁ ++ h₂)).take h₁.length = runActions ρ s h₁ := by
+  rw [C05_clone_actions, List.take_left' (C05_one_result_per_call ρ s h₁)]
+
 end Mb.C05
